@@ -1394,6 +1394,9 @@ namespace pika::threads::detail {
         state.compare_exchange_strong(expected, runtime_state::pre_sleep);
 
         l.unlock();
+#if defined(PIKA_VERIF)
+        PIKA_VERIF_POINT(1908, sched_.get(), virt_core, static_cast<std::uint64_t>(expected));
+#endif
 
         PIKA_ASSERT(expected == runtime_state::running || expected == runtime_state::pre_sleep ||
             expected == runtime_state::sleeping);
